@@ -9,7 +9,7 @@ package mempool
 //@ ghost liveP : (Array Int Bool)
 //@ ghost poolCap : (Array Int Int)
 // ghost state of objects that do not exist yet is the default
-//@ axiom forall p int :: p > top ==> !liveP[p]
+//@ axiom unborn: forall p int :: p > top ==> !liveP[p]
 
 // ---- the allocator interface contract: what every client may rely on, what every implementation must satisfy
 //@ iface mempool.Allocator.Malloc
@@ -162,8 +162,8 @@ package mempool
 //@ pred bucketCap(i int) := ite(i == 0, 32, ite(i == 1, 64, ite(i == 2, 128, ite(i == 3, 256, ite(i == 4, 512, ite(i == 5, 1024, ite(i == 6, 2048, ite(i == 7, 4096, ite(i == 8, 8192, ite(i == 9, 16384, 32768))))))))))
 //@ pred isBucketCap(n int) := n == 32 || n == 64 || n == 128 || n == 256 || n == 512 || n == 1024 || n == 2048 || n == 4096 || n == 8192 || n == 16384 || n == 32768
 // established by init() (aligned_allocator.go:24-49); assumed here, see DESIGN.md
-//@ axiom forall s int :: 0 <= s && s <= 32768 ==> 0 <= alignedIndexes[s] && alignedIndexes[s] <= 10 && s <= bucketCap(alignedIndexes[s]) && (alignedIndexes[s] > 0 ==> s > bucketCap(alignedIndexes[s] - 1))
-//@ axiom forall i int :: 0 <= i && i <= 10 ==> poolCap[&alignedPools[i]] == bucketCap(i)
+//@ axiom indexes: forall s int :: 0 <= s && s <= 32768 ==> 0 <= alignedIndexes[s] && alignedIndexes[s] <= 10 && s <= bucketCap(alignedIndexes[s]) && (alignedIndexes[s] > 0 ==> s > bucketCap(alignedIndexes[s] - 1))
+//@ axiom poolcaps: forall i int :: 0 <= i && i <= 10 ==> poolCap[&alignedPools[i]] == bucketCap(i)
 
 //@ func (*AlignedAllocator).Malloc
 //@   props C20
